@@ -32,7 +32,8 @@ type sched struct {
 	pi      int // next PCT step
 	taken   []SchedEntry
 	ntaken  int
-	streak  int // consecutive blocked yields without progress
+	streak  int    // consecutive blocked yields without progress (statistic only)
+	bmask   uint64 // tasks that failed to take a lock since anybody last made progress
 	swHash  uint64
 	nswitch int64
 	abort   bool
@@ -168,6 +169,7 @@ func (w *World) finish(t *task) {
 	s := &w.sched
 	t.state = tDone
 	s.streak = 0
+	s.bmask = 0
 	if s.abort {
 		// wake everybody still parked so they can unwind
 		for i := 0; i < s.nt; i++ {
@@ -274,11 +276,22 @@ func (w *World) yield(blocked bool) {
 	if blocked {
 		s.streak++
 		w.Stat[StLockSpin]++
-		if s.streak > 3*s.nt+3 {
+		s.bmask |= 1 << uint(me)
+		// precise deadlock: every live task has failed to take a lock since anybody last made
+		// progress (no unlock can have happened in between, because every unlock is progress)
+		all := true
+		for i := 0; i < s.nt; i++ {
+			if s.tasks[i].state != tDone && s.bmask&(1<<uint(i)) == 0 {
+				all = false
+				break
+			}
+		}
+		if all {
 			w.abortRun("deadlock")
 		}
 	} else {
 		s.streak = 0
+		s.bmask = 0
 	}
 	if w.cfg.Explicit {
 		if s.si < len(w.cfg.Schedule) && w.cfg.Schedule[s.si].Step < s.step {
@@ -295,10 +308,10 @@ func (w *World) yield(blocked bool) {
 			}
 		}
 		if target < 0 && blocked {
-			target = w.pickOtherLowest(me)
+			target = w.pickUnblockedLowest(me)
 		}
 	} else if blocked {
-		target = w.pickOther(me, true)
+		target = w.pickUnblocked(me)
 		if target >= 0 {
 			w.Stat[StTaskSwitchForced]++
 		}
@@ -342,6 +355,44 @@ func (w *World) yield(blocked bool) {
 	if s.abort {
 		panic(abortSentinel{w.Aborted})
 	}
+}
+
+// pickUnblocked chooses (seeded) among live tasks that have not failed a lock since the last progress.
+//
+//go:norace
+func (w *World) pickUnblocked(not int) int {
+	s := &w.sched
+	n := 0
+	for i := 0; i < s.nt; i++ {
+		if i != not && s.tasks[i].state != tDone && s.bmask&(1<<uint(i)) == 0 {
+			n++
+		}
+	}
+	if n == 0 {
+		return -1
+	}
+	k := w.Choose(n, "sched.pick")
+	for i := 0; i < s.nt; i++ {
+		if i != not && s.tasks[i].state != tDone && s.bmask&(1<<uint(i)) == 0 {
+			if k == 0 {
+				return i
+			}
+			k--
+		}
+	}
+	return -1
+}
+
+//go:norace
+func (w *World) pickUnblockedLowest(not int) int {
+	s := &w.sched
+	for d := 1; d <= s.nt; d++ {
+		i := (not + d) % s.nt
+		if i != not && s.tasks[i].state != tDone && s.bmask&(1<<uint(i)) == 0 {
+			return i
+		}
+	}
+	return -1
 }
 
 //go:norace
@@ -469,7 +520,7 @@ func (r rlocker) Lock()   { r.m.RLock() }
 func (r rlocker) Unlock() { r.m.RUnlock() }
 
 //go:norace
-func (w *World) progress() { w.sched.streak = 0 }
+func (w *World) progress() { w.sched.streak = 0; w.sched.bmask = 0 }
 
 // WaitGroup replaces sync.WaitGroup for goroutines the program itself starts.
 type WaitGroup struct {
